@@ -40,9 +40,11 @@ import (
 	"path/filepath"
 	"strconv"
 	"strings"
+	"sync"
 
 	"mellium.im/xmpp"
 
+	"verifharness/astfacts"
 	"verifharness/common"
 )
 
@@ -149,8 +151,18 @@ func (c *ctx) check(sc scenario, tees []int, class string) (base result) {
 	done := strings.HasPrefix(base.outcome, "done.")
 	r.Case(baseLine, done || base.outcome != "err.read", class)
 	r.Hist["outcome:"+strings.SplitN(base.outcome, ".", 3)[0]+"."+lastField(base.outcome, done)]++
-	// coarse, stable normal form of the script: shape of the first features list and
-	// whether the answer to the STARTTLS request was <proceed/> or anything else
+	key := scriptKey(sc)
+	emit := func(sc scenario, res result) []string { return c.emit(sc, res) }
+	oracle := func(sc scenario, res result, lines []string) { c.judge(sc, res, lines) }
+	_ = compliant
+	lines := emit(sc, base)
+	oracle(sc, base, lines)
+	return c.checkTees(sc, base, lines, tees, key)
+}
+
+// scriptKey: coarse, stable normal form of the script: shape of the first features list and
+// whether the answer to the STARTTLS request was <proceed/> or anything else
+func scriptKey(sc scenario) string {
 	key := firstClass(sc)
 	switch a := answerClass(sc); {
 	case a == "P":
@@ -158,12 +170,22 @@ func (c *ctx) check(sc scenario, tees []int, class string) (base result) {
 	case key == "tls-opt" || key == "tls-req":
 		key += "/refused"
 	}
-	emit := func(sc scenario, res result) []string {
-		l := c.line(sc, res)
-		r.Line(l, res.trace()+" "+res.outcome)
-		return caseLines(r.Prop, l, sc)
-	}
-	oracle := func(sc scenario, res result, lines []string) {
+	return key
+}
+
+// emit writes the correspondence line of one executed scenario and returns its case lines.
+func (c *ctx) emit(sc scenario, res result) []string {
+	l := c.line(sc, res)
+	c.r.Line(l, res.trace()+" "+res.outcome+" "+res.adv)
+	return caseLines(c.r.Prop, l, sc)
+}
+
+// judge evaluates the clauses of the property that concern a single run on the real code.
+func (c *ctx) judge(sc scenario, res result, lines []string) {
+	r := c.r
+	key := scriptKey(sc)
+	compliant := secureCompliant(sc)
+	{
 		teeK := "tee0"
 		if sc.tee != 0 {
 			teeK = "tee"
@@ -194,6 +216,29 @@ func (c *ctx) check(sc scenario, tees []int, class string) (base result) {
 		// `Secure` in State() implies TLS observable at the peer: whatever the connection is
 		// (a wrapper with a ConnectionState() method is not TLS), a session that says Secure
 		// has sent a ClientHello, and nothing it writes afterwards is readable on the wire
+		// "clear-text data is never interpreted as part of the protected stream": once the
+		// session speaks TLS, Session.Feature reports only what a features list read inside
+		// TLS advertised — nothing of the lists the peer (or an attacker) sent in clear text
+		if res.hello != "" {
+			inTLS := map[int]bool{}
+			for _, p := range sc.prot {
+				if !p.junk && p.u.kind == 'L' {
+					for _, it := range p.u.items {
+						inTLS[it.id] = true
+					}
+				}
+			}
+			for _, id := range res.advIDs {
+				if !inTLS[id] {
+					k := "other"
+					if id == 0 {
+						k = "starttls"
+					}
+					r.Fail("features-from-clear-text", teeK+"/"+k, lines, fmt.Sprintf("on the TLS-protected stream Session.Feature(%q) reports a feature that was only advertised in clear text before <proceed/> (reported %s)", sc.namespace(id), res.adv))
+					break
+				}
+			}
+		}
 		scriptedSecure := false // an instrumented feature was told to return the Secure bit itself
 		for _, p := range res.picks {
 			if p.id != 0 && p.res.mask&uint8(xmpp.Secure) != 0 {
@@ -239,8 +284,13 @@ func (c *ctx) check(sc scenario, tees []int, class string) (base result) {
 			}
 		}
 	}
-	lines := emit(sc, base)
-	oracle(sc, base, lines)
+}
+
+// checkTees runs the tee variants of a scenario whose tee-off run is base.
+func (c *ctx) checkTees(sc scenario, base result, lines []string, tees []int, key string) result {
+	r := c.r
+	emit := func(sc scenario, res result) []string { return c.emit(sc, res) }
+	oracle := func(sc scenario, res result, lines []string) { c.judge(sc, res, lines) }
 	for _, t := range tees {
 		if t == 0 {
 			continue
@@ -383,6 +433,131 @@ func (c *ctx) pipelined(sc scenario, extra []unit, tees []int, class string) {
 	}
 	res := c.check(sp, tees, class+"-pipelined")
 	c.comparePair(sc, sp, base, res)
+}
+
+// ---- histories over ONE negotiator value --------------------------------------------------------
+
+// sharedHistory negotiates the sessions scs with one value returned by xmpp.NewNegotiator
+// (and one STARTTLS feature value), one after the other or all at once, and compares every
+// session with the same session run alone: a Negotiator may be shared, so whatever one
+// session did — read its first features list, for instance — must not change another.
+func (c *ctx) sharedHistory(scs []scenario, parallel bool, class string) {
+	r := c.r
+	if len(scs) == 0 {
+		return
+	}
+	tee := scs[0].tee
+	mode := "sequential"
+	if parallel {
+		mode = "parallel"
+	}
+	r.Mark("case shared-negotiator %s %d sessions", mode, len(scs))
+	for i := range scs {
+		scs[i].tee = tee
+		scs[i].user = fmt.Sprintf("u%d", i)
+		if scs[i].state0&uint8(xmpp.S2S) != 0 {
+			scs[i].state0 &^= uint8(xmpp.S2S) // sessions are told apart by their own address
+		}
+	}
+	sn := newSharedNeg(tee)
+	base := xmpp.StartTLS(c.tlsConfig(scs[0].explicit))
+	for i := range scs {
+		scs[i].explicit = scs[0].explicit
+	}
+	got := make([]result, len(scs))
+	if parallel {
+		var wg sync.WaitGroup
+		for i := range scs {
+			wg.Add(1)
+			go func(i int) {
+				defer wg.Done()
+				got[i] = c.exec1(scs[i], &base, sn)
+			}(i)
+		}
+		wg.Wait()
+	} else {
+		for i := range scs {
+			got[i] = c.exec1(scs[i], &base, sn)
+		}
+	}
+	var all []string
+	per := make([][]string, len(scs))
+	for i := range scs {
+		per[i] = c.emit(scs[i], got[i])
+		all = append(all, per[i]...)
+	}
+	all = append(all, "#shared-negotiator "+mode)
+	r.Case("shared "+mode+" "+strings.Join(all, " "), true, class)
+	for i := range scs {
+		c.judge(scs[i], got[i], all)
+		alone := c.exec(scs[i], nil)
+		if alone.oracleField() != got[i].oracleField() {
+			// Go's map order chose differently: look for an alone run with the same choices
+			for k := 0; k < 100 && alone.oracleField() != got[i].oracleField(); k++ {
+				alone = c.exec(scs[i], nil)
+			}
+		}
+		if alone.outcome != got[i].outcome || alone.trace() != got[i].trace() || alone.adv != got[i].adv ||
+			!bytes.Equal(alone.rawClear, got[i].rawClear) || !bytes.Equal(alone.prot, got[i].prot) {
+			pos := "later-session"
+			if i == 0 {
+				pos = "first-session"
+			}
+			r.Fail("sessions-independent", mode+"/"+pos+"/"+scriptKey(scs[i]), all,
+				fmt.Sprintf("session %d of %d negotiated with one shared Negotiator: %s %s %s; the same session alone: %s %s %s",
+					i+1, len(scs), got[i].trace(), got[i].outcome, got[i].adv, alone.trace(), alone.outcome, alone.adv))
+		}
+	}
+}
+
+// historyPool: per-session scripts for the histories.
+func historyPool() []scenario {
+	f1 := other{id: 1, nec: 1, negotiable: true}
+	tlsDone := []pu{{u: hdr(true)}, {u: list()}}
+	return []scenario{
+		{clear: [][]unit{{hdr(true), list()}, {u('P')}}, prot: tlsDone},            // empty list: forced attempt
+		{clear: [][]unit{{hdr(true), list()}}},                                     // … and the peer silent
+		{clear: [][]unit{{hdr(true), list(it(0, true))}, {u('P')}}, prot: tlsDone}, // advertised, proceed
+		{clear: [][]unit{{hdr(true), list(it(0, true))}, {u('F')}}},                // refused
+		{others: []other{f1}, clear: [][]unit{{hdr(true), list(it(1, true))}, {u('P')}}, prot: []pu{{u: hdr(true)}, {u: list(it(1, true))}, {u: list()}}, results: []negRes{{mask: 2}}}, // stripped list
+		{clear: [][]unit{{hdr(true), list(item{id: 9, req: true, ok: true})}, {u('P')}}, prot: tlsDone},                                                                                 // unknown feature only
+		{clear: [][]unit{{hdr(false)}}},        // header refused: no list read
+		{clear: [][]unit{{hdr(true), u('E')}}}, // stream error instead of a list
+		{others: []other{f1}, clear: [][]unit{{hdr(true), list(it(0, false), it(1, false))}, {u('P')}}, prot: tlsDone, results: []negRes{{mask: 0}}},
+	}
+}
+
+func (c *ctx) histories(n int, parallel bool) {
+	rnd := c.r.Rnd
+	pool := historyPool()
+	// every ordered pair, then random triples
+	if !parallel {
+		for i := range pool {
+			for j := range pool {
+				a, b := pool[i], pool[j]
+				a.domain, b.domain = i%4, j%4
+				a.remote, b.remote = a.domain, (j+1)%4
+				a.tee, b.tee = (i+j)%4, (i+j)%4
+				a.ck, b.ck = i%3, j%3
+				c.sharedHistory([]scenario{a, b}, false, "history-pairs")
+			}
+		}
+	}
+	for k := 0; k < n; k++ {
+		m := 2 + rnd.Intn(2)
+		var scs []scenario
+		tee := rnd.Intn(4)
+		for i := 0; i < m; i++ {
+			s := pool[rnd.Intn(len(pool))]
+			s.domain, s.remote, s.ck, s.tee = rnd.Intn(4), rnd.Intn(4), rnd.Intn(3), tee
+			scs = append(scs, s)
+		}
+		cl := "history-random"
+		if parallel {
+			cl = "history-parallel"
+		}
+		c.sharedHistory(scs, parallel, cl)
+	}
 }
 
 // ---- sni: one feature value, many sessions ------------------------------------------------
@@ -960,7 +1135,12 @@ func Run(r *common.Run) error {
 		// adjacent pairs that are a script and its pipelined version are compared under the
 		// pre-buffer clause, sni lines with their histories
 		var scs []scenario
+		sharedMode := ""
 		for _, l := range lines {
+			if strings.HasPrefix(l, "#shared-negotiator") {
+				sharedMode = strings.TrimSpace(strings.TrimPrefix(l, "#shared-negotiator"))
+				continue
+			}
 			if strings.HasPrefix(l, "#split=") && len(scs) > 0 {
 				var sp []int
 				for _, x := range strings.Split(strings.TrimPrefix(l, "#split="), ",") {
@@ -978,6 +1158,11 @@ func Run(r *common.Run) error {
 				}
 				scs = append(scs, sc)
 			}
+		}
+		if sharedMode != "" {
+			// the lines are the sessions of one history over a shared Negotiator value
+			hs := append([]scenario(nil), scs...)
+			c.sharedHistory(hs, sharedMode == "parallel", "replay")
 		}
 		var results []result
 		for _, sc := range scs {
@@ -1021,7 +1206,14 @@ func Run(r *common.Run) error {
 		}
 		return nil
 	}
+	if r.Race() {
+		// the race-detector run: only the concurrent scenarios
+		c.histories(300, true)
+		return nil
+	}
 	c.corpus(all)
+	c.histories(r.Pick(60, 600), false)
+	c.histories(r.Pick(40, 300), true)
 	c.exhaustive(all)
 	c.random(r.Pick(2500, 20000), all)
 	c.deep(r.Pick(800, 8000), all)
@@ -1136,6 +1328,18 @@ func Facts(repo string) (string, error) {
 		}
 	}
 	fmt.Fprintf(&sb, "/-- session.go `negotiateSession`: the statement that sets `Secure` before the negotiation\nstarts is guarded by a type assertion to `*tls.Conn` -/\ndef initialSecureAssertsTLSConn : Option Bool := %s\n", asserts)
+
+	// negotiator.go: variables of negotiator() written inside the closure it returns (shared by
+	// every session negotiated with one NewNegotiator value)
+	shared := "none"
+	if names, found, err := astfacts.SharedWrites(filepath.Join(repo, "negotiator.go"), "negotiator"); err == nil && found {
+		var q []string
+		for _, n := range names {
+			q = append(q, strconv.Quote(n))
+		}
+		shared = "some [" + strings.Join(q, ", ") + "]"
+	}
+	fmt.Fprintf(&sb, "/-- negotiator.go: the variables of `negotiator` that the closure it returns writes -/\ndef negotiatorSharedWrites : Option (List String) := %s\n", shared)
 
 	usesData := "none"
 	if f, err := parser.ParseFile(fset, filepath.Join(repo, "negotiator.go"), nil, 0); err == nil {
